@@ -861,9 +861,33 @@ def inline_trivial_properties(fn, prog, ci):
 def prep(fn, lookup=None, keep=(), depth=3):
     """flatten then propagate."""
     g = flatten(fn, lookup, depth, keep) if lookup is not None else fn
-    p = propagate(g)
+    p = fold_constant_getattr(propagate(g))
     p._inlined = getattr(g, '_inlined', [])
     return p
+
+
+def fold_constant_getattr(fn):
+    """getattr(E, 'name') with a literal name is E.name; setattr(E, 'name', v) as a statement is E.name = v (in place)."""
+    import re as _re
+
+    class F(ast.NodeTransformer):
+        def visit_Call(self, n):
+            self.generic_visit(n)
+            if isinstance(n.func, ast.Name) and n.func.id == 'getattr' and len(n.args) == 2 and not n.keywords \
+                    and isinstance(n.args[1], ast.Constant) and isinstance(n.args[1].value, str) and _re.match(r'^[A-Za-z_]\w*$', n.args[1].value):
+                return ast.copy_location(ast.Attribute(value=n.args[0], attr=n.args[1].value, ctx=ast.Load()), n)
+            return n
+
+        def visit_Expr(self, n):
+            self.generic_visit(n)
+            c = n.value
+            if isinstance(c, ast.Call) and isinstance(c.func, ast.Name) and c.func.id == 'setattr' and len(c.args) == 3 and not c.keywords \
+                    and isinstance(c.args[1], ast.Constant) and isinstance(c.args[1].value, str) and _re.match(r'^[A-Za-z_]\w*$', c.args[1].value):
+                return ast.copy_location(ast.Assign(targets=[ast.Attribute(value=c.args[0], attr=c.args[1].value, ctx=ast.Store())], value=c.args[2]), n)
+            return n
+    F().visit(fn)
+    ast.fix_missing_locations(fn)
+    return fn
 
 
 def resolver(fn, stop=()):
